@@ -416,8 +416,10 @@ def save_score_midi(
             # Change time signature to match the duration of the measure
             # This ensure the beat and downbeats position are coherent
             # in case of incomplete measures later in the score.
-            all_ts = list(part.iter_all(score.TimeSignature))
-            ts_changing_time = [ts.start.t for ts in all_ts]
+            # times at which the score itself changes the time signature
+            ts_times = [ts.start.t for ts in part.iter_all(score.TimeSignature)]
+            # start times of the measures that get a time signature of their own
+            ts_changing_time = []
             for measure in part.iter_all(score.Measure):
                 m_duration_beat = part.beat_map(measure.end.t) - part.beat_map(
                     measure.start.t
@@ -436,8 +438,9 @@ def save_score_midi(
                     ts_changing_time.append(
                         measure.start.t
                     )  # keep track of changing the ts
-                    # now go back to original ts if there is no ts change after this measure
-                    if not any([ts_t > measure.start.t for ts_t in ts_changing_time]):
+                    # now go back to original ts, unless the score changes the ts
+                    # right after this measure anyway
+                    if measure.end.t not in ts_times:
                         meta_events[part][to_ppq(measure.end.t)].append(
                             MetaMessage(
                                 "time_signature",
